@@ -115,7 +115,9 @@ pub async fn run(cases: usize, seed: u64) {
         let fs = Side { name: "filesystem", log: fs_log, other: fs_other,
             reopen: Box::new(move || { let p = p1c.clone(); Box::pin(async move { new_fs(p, account, f1).await }) }) };
         let mut sides = [db, fs];
-        let dups_allowed = [false, true];
+        // byte-identical events (same commit hash twice) occur on both sides; on the database side `rewind` is then
+        // skipped, because its delete-by-hash is a LISTED known finding (D5) and not what this witness looks for
+        let dups_allowed = [true, true];
         for (si, side) in sides.iter_mut().enumerate() {
             let mut model: Vec<[u8; 32]> = vec![];
             let mut other_model: Vec<[u8; 32]> = vec![];
@@ -155,7 +157,8 @@ pub async fn run(cases: usize, seed: u64) {
                         trace.push(format!("apply({})", k));
                     }
                     3 => {
-                        if model.len() >= 2 {
+                        let has_dups = (0..model.len()).any(|a| (a + 1..model.len()).any(|b| model[a] == model[b]));
+                        if model.len() >= 2 && !(si == 0 && has_dups) {
                             let i = r.below(model.len() as u64) as usize;
                             let c = CommitHash(model[i]);
                             // the log rewinds to the LAST occurrence of the commit
